@@ -273,6 +273,27 @@ class SymEnum:
         return f'<sym {self.cls.name} {self.ord}>'
 
 
+class SymOpt:
+    """A symbolic `T | None` scalar: (is_none, val)."""
+
+    def __init__(self, is_none, val):
+        self.is_none = is_none
+        self.val = val
+
+    def eq(self, other):
+        if other is None:
+            return self.is_none
+        if isinstance(other, SymOpt):
+            return z3.Or(z3.And(self.is_none, other.is_none),
+                         z3.And(z3.Not(self.is_none), z3.Not(other.is_none), self.val == other.val))
+        if isinstance(other, (int, Fraction)) or isinstance(other, z3.ExprRef):
+            return z3.And(z3.Not(self.is_none), self.val == to_z3(other))
+        return False
+
+    def __repr__(self):
+        return f'<opt none={self.is_none} val={self.val}>'
+
+
 class Obj:
     """Instance of a repo class."""
     _ids = 0
